@@ -485,6 +485,19 @@ func (w *world) check(before, after *obs, e string, ex expect) []viol {
 		want, must := ex.must[i]
 		newly := b.Returns == 0 && a.Returns >= 1
 		if must && !newly && a.Returns == 0 {
+			if kind == "D" {
+				// Not a violation: the property only promises that the call returns (once, with its own
+				// response or an allowed error) by its own time-out / cancellation / Close, and those events
+				// keep their own "must return" rules (asynchronous calls: cancellation and Close). The
+				// situation is counted and reported in the evidence as an observation.
+				name := "pending_until_own_timeout_after_other_stream_failure"
+				if ex.shape == "/first-stream-failure-of-the-connection" {
+					name = "pending_after_first_stream_failure_of_the_connection"
+				}
+				w.notes = append(w.notes, viol{Key: name + "/" + tag, What: fmt.Sprintf("caller %d stays pending after event %s (its stream failed)", i, e)})
+				c.pendingAfterDrop = true
+				continue
+			}
 			add("stuck/"+tag+"/after-"+kind+ex.shape, fmt.Sprintf("caller %d is still blocked after event %s (%s)", i, e, ex.reason))
 			c.tainted = true
 			continue
@@ -492,11 +505,15 @@ func (w *world) check(before, after *obs, e string, ex expect) []viol {
 		if !newly {
 			continue
 		}
-		if c.tainted && !must {
-			// The call was already reported as wrongly blocked; when and how it is finally released by an
-			// unrelated event is a consequence of that finding, not a new one (its payload is still checked).
-			if errClass(a.Err) == "ok" && a.Value != c.payload() {
+		if (c.tainted || c.pendingAfterDrop) && !must {
+			// The call was left pending by an earlier stream failure (or was already reported as blocked);
+			// it may be released later by an unrelated event (a later failure of the re-created stream, a
+			// stale answer that still finds its entry). What it gets must still be its own response or an
+			// error of an allowed class.
+			if cls := errClass(a.Err); cls == "ok" && a.Value != c.payload() {
 				add("misdelivery/"+tag+"/after-"+kind, fmt.Sprintf("caller %d (payload %q) got the response %q (event %s)", i, c.payload(), a.Value, e))
+			} else if cls == "other" {
+				add("error-class/"+tag+"/after-"+kind, fmt.Sprintf("caller %d returned an error outside the allowed classes: %v", i, a.Err))
 			}
 			continue
 		}
@@ -602,6 +619,7 @@ type trace struct {
 	Events          []string
 	Enabled         [][]string // Enabled[k] = events enabled before Events[k]; one more entry for the final state
 	Viol            []viol
+	Obs             []viol // observations that are not violations (counted in the evidence)
 	Inconclusive    string
 	Diverged        bool
 	States          []uint64
@@ -744,6 +762,11 @@ func runOne(cfg Config, prefix []string, stopAtPrefix bool) *trace {
 		after := w.observe()
 		t.Steps++
 		t.Viol = append(t.Viol, w.check(&o, &after, e, ex)...)
+		for _, n := range w.notes {
+			n.At = len(t.Events)
+			t.Obs = append(t.Obs, n)
+		}
+		w.notes = nil
 		checkPanics(e)
 		for i := range t.Viol {
 			if t.Viol[i].At == 0 {
@@ -771,6 +794,17 @@ func runOne(cfg Config, prefix []string, stopAtPrefix bool) *trace {
 	}
 	t.Outcome = outcomeOf(w, &o)
 	t.InflightEntries, t.InflightSent = client.VerifInflight(w.cli, storeAddr)
+	if !stopAtPrefix && t.InflightEntries > 0 {
+		// observation only: a call that was left pending by a stream failure and then ended by its own
+		// time-out / cancellation leaves its entry in the in-flight table (and `sent` incremented)
+		for i, c := range w.callers {
+			if c.pendingAfterDrop && o.Callers[i].Returns > 0 && (c.timedOut || c.cancelled) {
+				t.Obs = append(t.Obs, viol{Key: "entry_left_in_flight_table_after_pending_call_ended", What: fmt.Sprintf(
+					"at the end %d entr(y/ies) remain in batched, sent counter %d", t.InflightEntries, t.InflightSent), At: len(t.Events)})
+				break
+			}
+		}
+	}
 	if stopAtPrefix {
 		return t
 	}
@@ -814,6 +848,7 @@ type subtreeResult struct {
 	Inconclusive map[string]int      `json:"inconclusive,omitempty"`
 	Diverged     int                 `json:"diverged"`
 	Viol         map[string]violHit  `json:"viol,omitempty"`
+	Obs          map[string]violHit  `json:"obs,omitempty"`
 	States       []uint64            `json:"states"`
 	Outcomes     map[string]int      `json:"outcomes"`
 	NonTrivial   int                 `json:"nontrivial"`
@@ -839,7 +874,7 @@ type violHit struct {
 }
 
 func newSubtreeResult(prefix []string) *subtreeResult {
-	return &subtreeResult{Prefix: prefix, Inconclusive: map[string]int{}, Viol: map[string]violHit{}, Outcomes: map[string]int{},
+	return &subtreeResult{Prefix: prefix, Inconclusive: map[string]int{}, Viol: map[string]violHit{}, Obs: map[string]violHit{}, Outcomes: map[string]int{},
 		ByF: map[string]int{}, EventKinds: map[string]int{}}
 }
 
@@ -866,6 +901,23 @@ func (r *subtreeResult) account(cfg Config, t *trace, states map[uint64]struct{}
 		}
 		r.Inconclusive[k]++
 		return
+	}
+	seenObs := map[string]bool{}
+	for _, v := range t.Obs {
+		if seenObs[v.Key] {
+			continue // count executions, not occurrences
+		}
+		seenObs[v.Key] = true
+		h, ok := r.Obs[v.Key]
+		evs := t.Events
+		if v.At > 0 && v.At <= len(evs) {
+			evs = evs[:v.At]
+		}
+		if !ok || simpler(evs, h.Events) {
+			h.What, h.Events = v.What, append([]string{}, evs...)
+		}
+		h.Count++
+		r.Obs[v.Key] = h
 	}
 	for _, v := range t.Viol {
 		h, ok := r.Viol[v.Key]
